@@ -144,7 +144,10 @@ def apply_update(ex, st, recv, args, exact=False):
     was_bankrupt = heap.get(recv, "bankrupt")
     for key in update_modkeys():
         heap.havoc(key, cond=cond)
-    heap.set(rt, "stale", False)
+    # the root's update resolves the pending flag; a sub-node's update leaves a fresh tree fresh and says nothing about a stale one (it may or may not
+    # have re-entered the root's update through an accessor)
+    was_stale = heap.get(rt, "stale")
+    heap.set(rt, "stale", z3.If(is_root, z3.BoolVal(False), z3.If(_zb(was_stale), dsl.fresh_bool("stale_after_subnode_update"), z3.BoolVal(False))))
     st.assume(_zb(Implies(was_bankrupt, heap.get(recv, "bankrupt"))))
     out = []
     # may raise (NaN price on an open position, zero base of the return, ...)
@@ -481,6 +484,12 @@ def verify_update(ex, contract, timeout_ms=30000, restrict=None, variant=None):
         if restrict:
             for f in restrict(S0, self, args):
                 st0.assume(_zb(f))
+        # only an update of the whole tree resolves the pending flag (after fix F27 a sub-strategy's update no longer clears it): a node below the root
+        # is updated by its root's update - which has resolved the flag by then - so for such a node the tree is fresh at entry.  A direct update of a
+        # sub-node of a STALE tree re-enters the root's update through its children's accessors; that case is outside this contract and covered by the
+        # bounded stand-ins (c08_reads / c01_identity: sub-node updates followed by reads)
+        rt0_ = st0.heap.get(self, "root")
+        st0.assume(_zb(Or(rt0_.term == self.term, Not(st0.heap.get(rt0_, "stale")))))
         E = st0.heap.copy()
         st0.ghost["schemas"] = [children_schema(E, self), sc_schema(E, self)]
         t0 = time.time()
